@@ -19,7 +19,7 @@
    queues an event in the past and the returned times are not ordered. *)
 From EoNV Require Import Prelude Samp Graph ListDict ListDictP Gillespie KldP GillespieInv SampP GillespieP GillespieLog.
 From EoNV Require Import Investigation InvestigationP GillespieC10.
-From EoNV Require Import EventSIS EventSISP EventSISRows EventSISLog EventSISFast EventSISNM EventSISOut EventSISEx.
+From EoNV Require Import EventSIS EventSISP EventSISRows EventSISLog EventSISFast EventSISNM EventSISOut EventSISInit EventSISEx.
 
 Section C04esis.
 Variable g : graph.
@@ -39,6 +39,27 @@ Theorem C04_fast_SIS_rows_well_formed :
       so_rows out = log_arrays (gnodes g) [stS; stI] tmin (st_init i0 []) evs /\
       Forall (fun e => xlt (ev_time e) tmax = true /\ In (ev_node e) (gnodes g) /\ (ev_st e = stI \/ ev_st e = stS)) evs.
 Proof. exact (fsis_C04 g Hnd Hadj). Qed.
+
+(* ... also when the initial nodes are drawn by the simulator: initial_infecteds=None gives
+   random.sample(list(G), 1), or with rho random.sample(list(G), int(round(N*rho))) (Python
+   rounds half to even: [requested]); the sample i0 is duplicate-free, inside the graph and
+   has the requested length, so row 0 is (tmin, [N - round(N*rho); round(N*rho)]) *)
+Theorem C04_fast_SIS_rows_well_formed_any_initial_condition :
+  forall tau gamma tmax tmin, xlt tmin tmax = true ->
+  forall i0o rho full fuel ds out tr,
+    (forall l, i0o = Some l -> NoDup l /\ incl l (gnodes g)) ->
+    exec (fast_SIS g tau gamma tmax i0o rho tmin full fuel) ds [] = (Ok out, tr) ->
+    exists i0, NoDup i0 /\ incl i0 (gnodes g) /\
+      match i0o with
+      | Some l => i0 = l
+      | None => Z.of_nat (length i0) = requested g rho /\ (0 <= requested g rho <= order g)%Z
+      end /\
+      exists evs : list ev,
+        traj g SIS tmin tmax (so_rows out) /\
+        (exists rs, so_rows out = (tmin, [order g - Z.of_nat (length i0); Z.of_nat (length i0)]%Z) :: rs) /\
+        so_rows out = log_arrays (gnodes g) [stS; stI] tmin (st_init i0 []) evs /\
+        Forall (fun e => xlt (ev_time e) tmax = true /\ In (ev_node e) (gnodes g) /\ (ev_st e = stI \/ ev_st e = stS)) evs.
+Proof. exact (fsis_C04_any_init g Hnd Hadj). Qed.
 
 (* fast_nonMarkov_SIS, every rule table inside [rules_ok] *)
 Theorem C04_fast_nonMarkov_SIS_rows_well_formed :
@@ -111,7 +132,27 @@ Proof.
   split; [|exact T]. vm_compute in E. injection E as <-. reflexivity.
 Qed.
 
+(* rho = 1/2 on three nodes: int(round(1.5)) = 2 initial nodes drawn by random.sample *)
+Example C04esis_fast_SIS_rho_example :
+  requested gp (Some (1 # 2)) = 2%Z /\
+  exists out tr, exec (fast_SIS gp 2 1 (Some 2) None (Some (1 # 2)) 0 true 100)
+                      [1; 1#4; 1#8; 3#8; 1#2; 5#8; 1#16; 3#4] [] = (Ok out, tr) /\
+    map (fun x : row => (Qred (fst x), snd x)) (so_rows out) =
+      [(0, [1; 2]%Z); (1 # 8, [0; 3]%Z); (3 # 16, [1; 2]%Z); (1 # 4, [2; 1]%Z); (1 # 2, [3; 0]%Z)] /\
+    traj gp SIS 0 (Some 2) (so_rows out).
+Proof.
+  split; [reflexivity|].
+  destruct (exec (fast_SIS gp 2 1 (Some 2) None (Some (1 # 2)) 0 true 100) [1; 1#4; 1#8; 3#8; 1#2; 5#8; 1#16; 3#4] []) as [[out|e] tr] eqn:E;
+    [|vm_compute in E; discriminate E].
+  exists out, tr. split; [reflexivity|].
+  destruct (C04_fast_SIS_rows_well_formed_any_initial_condition gp gp_nodup gp_adj 2 1 (Some 2) 0 eq_refl None (Some (1 # 2)) true 100 _ out tr
+              ltac:(intros l K; discriminate K) E) as [i0 [_ [_ [_ [evs [T _]]]]]].
+  split; [|exact T]. vm_compute in E. injection E as <- _. reflexivity.
+Qed.
+
 Print Assumptions C04_fast_SIS_rows_well_formed.
+Print Assumptions C04esis_fast_SIS_rho_example.
+Print Assumptions C04_fast_SIS_rows_well_formed_any_initial_condition.
 Print Assumptions C04_fast_nonMarkov_SIS_rows_well_formed.
 Print Assumptions C04esis_first_time_is_tmin.
 Print Assumptions C04esis_consecutive_rows.
